@@ -571,6 +571,17 @@ impl OcflRepo {
         validate::validate_digest_algorithm(digest_algorithm)?;
         validate::validate_content_dir(content_dir)?;
 
+        // The inventory files are stored next to the content directory
+        if content_dir.is_empty()
+            || content_dir == INVENTORY_FILE
+            || content_dir.starts_with(INVENTORY_SIDECAR_PREFIX)
+        {
+            return Err(RocflError::InvalidValue(format!(
+                "The content directory cannot be blank or have the name of an inventory file. Found: {}",
+                content_dir
+            )));
+        }
+
         let _lock = self.get_lock_manager()?.acquire(object_id)?;
 
         match self.store.get_inventory(object_id) {
